@@ -186,7 +186,7 @@ Qed.
 
 (* unlock never hits a log.Fatalf branch *)
 Lemma unlock_defined : forall g ths i t,
-    lock_inv (g, ths) -> nth_error ths i = Some t -> t_pc t = PUnlock -> o_kind (t_op t) <> KGCGone ->
+    lock_inv (g, ths) -> nth_error ths i = Some t -> t_pc t = PUnlock -> o_kind (t_op t) <> KGoneOld ->
     unlock (g_busy g) (o_tract (t_op t)) (lock_mode (o_kind (t_op t))) <> None.
 Proof.
   intros g ths i [o p l] Inv Ni Hp Hk. cbn in *. subst p.
@@ -253,7 +253,7 @@ Proof.
 Qed.
 
 (* a Disk call (or the talker's CtlRead) is only ever made inside the locked section *)
-Lemma calls_inside : forall k p l, pending_call p l <> 0 -> k <> KGCGone -> holding k p = true.
+Lemma calls_inside : forall k p l, pending_call p l <> 0 -> k <> KGoneOld -> holding k p = true.
 Proof. intros k p l H K. destruct p; cbn in *; try congruence; destruct k; cbn; congruence. Qed.
 
 (* a step of an operation on tract a leaves every other tract's lock entry, map entry and file alone *)
@@ -272,7 +272,7 @@ Qed.
 (* who can change the disk: only an operation inside a WRITE / LONG_WRITE section (or the lock-free GCGone) *)
 Lemma step_files : forall V g o p l inj g' p' l',
     step V g o p l inj = Some (g', p', l') ->
-    g_files g' = g_files g \/ (holding (o_kind o) p = true /\ lock_mode (o_kind o) <> MR) \/ o_kind o = KGCGone.
+    g_files g' = g_files g \/ (holding (o_kind o) p = true /\ lock_mode (o_kind o) <> MR) \/ o_kind o = KGoneOld.
 Proof.
   intros V g o p l inj g' p' l' H.
   destruct p; unfold step, rm_cont, create_cont, do_close in H;
@@ -285,7 +285,7 @@ Lemma reader_stable : forall V s i j inj s' a b,
     reachable V s -> sys_step V s j inj = Some s' ->
     nth_error (snd s) i = Some a -> nth_error (snd s) j = Some b ->
     inside (o_tract (t_op a)) a = true -> lock_mode (o_kind (t_op a)) = MR ->
-    o_kind (t_op b) <> KGCGone ->
+    o_kind (t_op b) <> KGoneOld ->
     get (o_tract (t_op a)) (g_files (fst s')) = get (o_tract (t_op a)) (g_files (fst s)).
 Proof.
   intros V [g ths] i j inj s' a b R St Ha Hb Ia Ma Kb. cbn [fst snd] in *.
